@@ -331,7 +331,7 @@ func genValidAddressString(t *rapid.T) string {
 	k := rapid.IntRange(0, akCount-1).Draw(t, "vkind")
 	n := genNet(t)
 	if isSlpKind(k) {
-		n = rapid.IntRange(0, len(nets)-2).Draw(t, "vslpnet")
+		n = genSlpNet(t, "vslpnet")
 	}
 	c := c01Case{Kind: k, Net: n}
 	fixed, script, scalar := c01PayloadLen(k)
